@@ -19,7 +19,7 @@ import numpy as np
 
 from simkit.core import RunState, Sim
 from simkit.rngseam import RngStub
-from simkit.world import World, quiet
+from simkit.world import World, SEAM, SimFault, quiet
 
 FNS = ["uniform_", "normal_", "constant_", "ones_", "zeros_", "xavier_uniform_", "xavier_normal_", "kaiming_uniform_", "kaiming_normal_"]
 NONLIN = ["linear", "conv1d", "conv2d", "sigmoid", "tanh", "relu", "leaky_relu", "selu"]
@@ -50,24 +50,54 @@ class InitSim(Sim):
     NAME = "initsim"
     QUICK_RUNS = 16000
     THOROUGH_RUNS = 120000
-    MAX_EVENTS = 10
+    MAX_EVENTS = 16
     PROBES = ["stub_hit_uniform", "stub_hit_normal", "real_rng_large_sample", "rank1_plain_filler", "rank_lt2_refused", "fan_out_mode",
-              "leaky_relu_slope", "layer_linear", "layer_conv1d", "layer_conv2d", "float64", "requires_grad_kept", "rank3", "rank4", "gain_not_one", "non_contiguous_tensor", "initialiser_inside_no_grad"]
+              "leaky_relu_slope", "layer_linear", "layer_conv1d", "layer_conv2d", "float64", "requires_grad_kept", "rank3", "rank4", "gain_not_one", "non_contiguous_tensor", "initialiser_inside_no_grad",
+              "earlier_tensor_updated_in_place", "earlier_tensor_initialised_again", "initialiser_interrupted_then_reissued", "initialiser_call_refused_then_reissued",
+              "weight_replaced_then_reset_parameters"]
     RULE = ("one run = 3-10 initialiser / layer-constructor calls with seeded configurations (shape rank 1-4, gain, mode, nonlinearity, slope, "
             "dtype, requires_grad), each under the stub stream or the real seeded generator; distinct = initialiser x rank x mode x nonlinearity "
             "x dtype x stream; non-trivial = a random initialiser ran on a tensor of rank >= 2")
     STUB = Sim.STUB + ["np.random uniform/normal entry points replaced by a known stream in stub runs (real seeded generator in the others)"]
 
     def knobs(self, rng, tier):
-        return {"max_events": rng.randint(3, 10), "np_seed": rng.randrange(2 ** 31)}
+        return {"max_events": rng.randint(3, 16), "np_seed": rng.randrange(2 ** 31)}
 
     def start(self, knobs):
         st = RunState(knobs)
         st.world = World(knobs.get("np_seed", 1))
         st.SG = st.world.SG
+        st.kept = []        # [tensor, bytes, rg] of earlier filled tensors the program keeps using
+        st.caught = []      # exceptions the program caught and keeps
         return st
 
+    BAD = {"normal_": [{"mean": 0.0, "std": -1.0}, {"mean": 0.0, "std": "x"}], "uniform_": [{"a": float("nan"), "b": 1.0}],
+           "xavier_normal_": [{"gain": -1.0}], "constant_": [{"val": "abc"}],
+           "kaiming_uniform_": [{"mode": "fan_xx"}, {"nonlinearity": "foo"}], "kaiming_normal_": [{"nonlinearity": "foo"}, {"a": "x", "nonlinearity": "leaky_relu"}]}
+
     def gen(self, rng, st):
+        if getattr(st, "pending", None):
+            return st.pending.pop(0)
+        if st.kept and rng.random() < 0.3:
+            i = rng.randrange(len(st.kept))
+            u = rng.random()
+            if u < 0.35:
+                # the program updates an earlier tensor in place (what an optimizer step does)
+                return {"k": "touch", "idx": i, "how": rng.choice(["add", "scale", "sgd"])}
+            fn = rng.choice(FNS)
+            t = st.kept[i][0]
+            ev = {"k": "reinit", "idx": i, "fn": fn, "args": self._gen_args(rng, fn), "how": rng.choice(["stub", "real"]), "in_no_grad": rng.random() < 0.15}
+            if u < 0.6 and fn in self.BAD:
+                # a call the library is expected to refuse (or an argument it may accept): whatever it does, the tensor keeps its flags
+                ev["args"] = rng.choice(self.BAD[fn])
+                ev["bad"] = True
+                st.pending = [{"k": "reinit", "idx": i, "fn": fn, "args": self._gen_args(rng, fn), "how": "stub", "in_no_grad": False}]
+            elif u < 0.8:
+                ev["fault"] = {"kind": rng.choice(["alloc", "interrupt", "exit"]), "seam": "line", "at": rng.randint(1, 30)}
+                st.pending = [{"k": "reinit", "idx": i, "fn": fn, "args": ev["args"], "how": "stub", "in_no_grad": False}]
+            return ev
+        if getattr(st, "pending", None):
+            return st.pending.pop(0)
         how = rng.choice(["stub", "stub", "real"])
         if rng.random() < 0.2:
             kind = rng.choice(["Linear", "Conv1d", "Conv2d"])
@@ -79,7 +109,12 @@ class InitSim(Sim):
             else:
                 args = {"cin": rng.randint(8, 16) if big else rng.randint(1, 3), "cout": rng.randint(20, 30) if big else rng.randint(1, 4),
                         "k": [rng.randint(3, 5), rng.randint(3, 5)] if big else rng.choice([rng.randint(1, 3), [rng.randint(1, 3), rng.randint(1, 3)]]), "bias": rng.random() < 0.7}
-            return {"k": "layer", "kind": kind, "args": args, "how": how}
+            ev = {"k": "layer", "kind": kind, "args": args, "how": how}
+            if not big and rng.random() < 0.5:
+                # later the program swaps the weight for one with another fan-in (pruning / widening a layer) and resets the layer,
+                # or simply resets the untouched layer a second time
+                ev["then"] = {"scale_in": rng.choice([1, 2, 3, 7]), "how": rng.choice(["new_parameter", "data_rebound"])}
+            return ev
         fn = rng.choice(FNS)
         rank = rng.choice([1, 2, 2, 2, 3, 4])
         if how == "real":
@@ -87,6 +122,12 @@ class InitSim(Sim):
                      4: [rng.randint(10, 20), rng.randint(10, 20), rng.randint(10, 15), rng.randint(10, 15)]}[rank]
         else:
             shape = [rng.randint(1, 6) for _ in range(rank)]
+        args = self._gen_args(rng, fn)
+        return {"k": "init", "fn": fn, "shape": shape, "f64": rng.random() < 0.4, "rg": rng.random() < 0.5, "args": args, "how": how,
+                "layout": rng.choice(["C", "C", "C", "F", "transposed", "strided"]) if rank >= 2 else rng.choice(["C", "C", "strided"]),
+                "in_no_grad": rng.random() < 0.15}
+
+    def _gen_args(self, rng, fn):
         args = {}
         if fn == "uniform_":
             lo = rng.choice([0.0, -1.0, -0.5, 2.0])
@@ -102,9 +143,7 @@ class InitSim(Sim):
                 args = {"mode": rng.choice(["fan_in", "fan_out"]), "nonlinearity": rng.choice(NONLIN)}
                 if args["nonlinearity"] == "leaky_relu" or rng.random() < 0.2:
                     args["a"] = rng.choice([0, 0.01, 0.2, 1, 0.5])
-        return {"k": "init", "fn": fn, "shape": shape, "f64": rng.random() < 0.4, "rg": rng.random() < 0.5, "args": args, "how": how,
-                "layout": rng.choice(["C", "C", "C", "F", "transposed", "strided"]) if rank >= 2 else rng.choice(["C", "C", "strided"]),
-                "in_no_grad": rng.random() < 0.15}
+        return args
 
     # ------------------------------------------------------------------ expectations
     def _expect(self, fn, shape, args):
@@ -197,6 +236,47 @@ class InitSim(Sim):
     # ------------------------------------------------------------------ events
     def apply(self, st, ev):
         getattr(self, "_ev_" + ev["k"])(st, ev)
+        # earlier tensors are independent of everything that happened to OTHER tensors since
+        for n, (t, snap, rg) in enumerate(st.kept):
+            if snap is not None and t.data.tobytes() != snap:
+                st.fail("C15.independent_storage", f"tensor #{n}, filled by an earlier initialiser call, changed although only another tensor was "
+                        f"initialised or updated since (event {ev['k']} {ev.get('fn', ev.get('kind', ''))})")
+            if bool(t.requires_grad) != rg:
+                st.fail("C15.in_place", f"tensor #{n} lost/gained requires_grad ({t.requires_grad}, was {rg}) (event {ev['k']} {ev.get('fn', '')})")
+
+    def _ev_touch(self, st, ev):
+        if ev["idx"] >= len(st.kept):
+            st.skipped += 1
+            return
+        rec = st.kept[ev["idx"]]
+        t = rec[0]
+        if ev["how"] == "add":
+            t.data += t.data.dtype.type(0.5)
+        elif ev["how"] == "scale":
+            t.data *= t.data.dtype.type(0.5)
+        else:
+            SG = st.SG
+            if not t.requires_grad:
+                t.data -= t.data.dtype.type(0.25)
+            else:
+                t.grad = SG.Tensor(np.full(t.data.shape, 0.25, dtype=t.data.dtype))
+                opt = SG.optim.SGD([t], lr=1.0)
+                st.must("C15.harness_step", "SGD.step", opt.step)
+                opt.zero_grad()
+        rec[1] = t.data.tobytes()
+        st.probes["earlier_tensor_updated_in_place"] += 1
+
+    def _ev_reinit(self, st, ev):
+        if ev["idx"] >= len(st.kept):
+            st.skipped += 1
+            return
+        rec = st.kept[ev["idx"]]
+        t = rec[0]
+        ev2 = dict(ev, shape=list(t.data.shape), f64=t.data.dtype == np.float64, rg=rec[2], layout="C")
+        rec[1] = None            # being re-filled
+        self._run_init(st, ev2, t, tuple(t.data.shape), t.data.dtype.type, rec)
+        rec[1] = t.data.tobytes()
+        st.probes["earlier_tensor_initialised_again"] += 1
 
     def _ev_init(self, st, ev):
         SG = st.SG
@@ -219,6 +299,13 @@ class InitSim(Sim):
             t = SG.Tensor(base, requires_grad=ev["rg"])
         if layout != "C":
             st.probes["non_contiguous_tensor"] += 1
+        self._run_init(st, ev, t, shape, dtype, None)
+        if t.data.size <= 4096 and len(st.kept) < 6:
+            st.kept.append([t, t.data.tobytes(), bool(ev["rg"])])
+
+    def _run_init(self, st, ev, t, shape, dtype, rec):
+        SG = st.SG
+        fn, args = ev["fn"], ev["args"]
         f = getattr(SG.init, fn)
         call_args = [t]
         kw = {}
@@ -226,6 +313,8 @@ class InitSim(Sim):
             call_args += [args["a"], args["b"]]
         elif fn == "normal_" and args:
             kw = {"mean": args["mean"], "std": args["std"]}
+        elif fn == "uniform_" and ev.get("bad"):
+            call_args += [args["a"], args["b"]]
         elif fn == "constant_":
             call_args.append(args["val"])
         elif fn.startswith("xavier") and args:
@@ -239,20 +328,44 @@ class InitSim(Sim):
         ctx = SG.sg.no_grad() if ev.get("in_no_grad") else contextlib.nullcontext()      # e.g. `with no_grad(): model.apply(init_fn)`
         if ev.get("in_no_grad"):
             st.probes["initialiser_inside_no_grad"] += 1
+        flags = (id(t), tuple(t.data.shape), t.data.dtype, bool(t.requires_grad))
         try:
             with quiet(), ctx:
-                if stub is not None:
-                    with stub.installed():
+                with SEAM.armed(ev.get("fault")):
+                    if stub is not None:
+                        with stub.installed():
+                            out = f(*call_args, **kw)
+                    else:
                         out = f(*call_args, **kw)
-                else:
-                    out = f(*call_args, **kw)
+        except SimFault as e:
+            # interrupted at an arbitrary line: the values are unknown, but the tensor is still the caller's tensor
+            st.caught.append(e)
+            st.faults["init_line_" + ev["fault"]["kind"]] += 1
+            st.probes["initialiser_interrupted_then_reissued"] += 1
+            if (id(t), tuple(t.data.shape), t.data.dtype, bool(t.requires_grad)) != flags:
+                st.fail("C15.in_place", f"{fn} interrupted by an injected fault left the tensor with shape {t.data.shape}, dtype {t.data.dtype}, "
+                        f"requires_grad={t.requires_grad} (was {flags[1]}, {flags[2]}, {flags[3]})")
+            return
         except Exception as e:
             if needs2 and len(shape) < 2:
                 st.probes["rank_lt2_refused"] += 1
                 return
+            if ev.get("bad"):
+                st.caught.append(e)
+                st.probes["initialiser_call_refused_then_reissued"] += 1
+                if (id(t), tuple(t.data.shape), t.data.dtype, bool(t.requires_grad)) != flags:
+                    st.fail("C15.in_place", f"{fn}({args}) was refused ({type(e).__name__}) but left the tensor with shape {t.data.shape}, dtype {t.data.dtype}, "
+                            f"requires_grad={t.requires_grad} (was {flags[1]}, {flags[2]}, {flags[3]})")
+                return
             st.fail("C15.initialiser_raises", f"{fn}(shape={shape}, {args}) raised {type(e).__name__}: {e}")
         if needs2 and len(shape) < 2:
             st.fail("C15.rank_check", f"{fn} accepted a tensor of rank {len(shape)} (fan_in/fan_out are undefined)")
+        if ev.get("bad"):
+            # accepted: what such arguments mean is not documented; only identity and flags are
+            st.notes["odd_arguments_accepted"] += 1
+            if out is not t or (id(t), tuple(t.data.shape), t.data.dtype, bool(t.requires_grad)) != flags:
+                st.fail("C15.in_place", f"{fn}({args}) changed identity/shape/dtype/requires_grad of the tensor")
+            return
         what = f"{fn}(shape={list(shape)}, {args}, {'float64' if ev['f64'] else 'float32'})"
         if out is not t:
             st.fail("C15.in_place", f"{what}: did not return the tensor it was given")
@@ -319,6 +432,28 @@ class InitSim(Sim):
                     st.fail("C15.distribution", f"{kind}({a}).bias: values outside U(-1/sqrt(fan_in), 1/sqrt(fan_in)) = +-{b:.6g}")
         elif layer.bias is not None:
             st.fail("C15.layer_init", f"{kind}({a}): bias=False but a bias exists")
+        then = ev.get("then")
+        if then:
+            k_ = then["scale_in"]
+            new_shape = (wshape[0], wshape[1] * k_) + tuple(wshape[2:])
+            arr = np.full(new_shape, 123.0, dtype=w.data.dtype)
+            if then["how"] == "new_parameter":
+                layer.weight = nn.Parameter(SG.Tensor(arr, requires_grad=True))
+            else:
+                layer.weight.data = arr
+            stub2 = RngStub(perm_seed=len(st.events) + 17)
+            try:
+                with quiet(), stub2.installed():
+                    layer.reset_parameters()
+            except Exception as e:
+                st.fail("C15.layer_init", f"{kind}.reset_parameters() after the weight was replaced raised {type(e).__name__}: {e}")
+            b2 = 1.0 / math.sqrt(fan_in * k_)
+            st.probes["weight_replaced_then_reset_parameters"] += 1
+            if tuple(layer.weight.data.shape) != new_shape:
+                st.fail("C15.in_place", f"{kind}.reset_parameters() changed the shape of the weight it was asked to re-fill")
+            self._judge(st, f"{kind}({a}) with weight replaced by shape {list(new_shape)}, reset_parameters(): weight", layer.weight.data, ("uniform", -b2, b2), stub2, layer.weight.data.dtype.type)
+            if a["bias"]:
+                self._judge(st, f"{kind}({a}) with weight replaced by shape {list(new_shape)}, reset_parameters(): bias", layer.bias.data, ("uniform", -b2, b2), stub2, layer.bias.data.dtype.type)
 
     def _make(self, nn, kind, a):
         if kind == "Linear":
